@@ -31,6 +31,8 @@ type toks = { v : Stdlib.String.t array; mutable i : int }
 (* cell handles taken on a canvas (K id hold x y) and used later (K id heldset k e):
    they keep denoting cell (x,y) of that canvas *)
 let held : (int, int * int) Hashtbl.t = Hashtbl.create 8
+(* objects of the attributed string class (Z lines) *)
+let tstrings : (int, element list) Hashtbl.t = Hashtbl.create 8
 let num t = let x = int_of_string t.v.(t.i) in t.i <- t.i + 1; x
 let str t = let x = t.v.(t.i) in t.i <- t.i + 1; x
 let split line = Array.of_list (List.filter (fun s -> s <> "") (String.split_on_char ' ' line))
@@ -144,7 +146,8 @@ let model_line out w line =
     out ("> " ^ line);
     match str t with
     | s when s.[0] = '#' -> ()
-    | "CASE" -> Hashtbl.reset w.terms; Hashtbl.reset w.canvases; Hashtbl.reset w.screens; Hashtbl.reset w.parsers
+    | "CASE" -> Hashtbl.reset w.terms; Hashtbl.reset w.canvases; Hashtbl.reset w.screens; Hashtbl.reset w.parsers;
+        Hashtbl.reset tstrings; Hashtbl.reset held
     | "END" -> ()
     | "T" ->
         let id = num t in
@@ -268,6 +271,33 @@ let model_line out w line =
              out ("SH " ^ hex (show_stream vals));
              out ("SHS " ^ hex (show_stream vals))
          | _ -> out "ERR unknown value type")
+    | "Z" ->
+        let id = num t in
+        let get i = Hashtbl.find tstrings i in
+        let put v = Hashtbl.replace tstrings id v in
+        (match str t with
+         | "ofbytes" | "ofstd" -> put (s_of_bytes (unhex (str t)))
+         | "ofstdattr" -> let b = unhex (str t) in put (s_of_bytes_attr b (mk_attr t))
+         | "cstr" -> put (s_of_cstr (unhex (str t)))
+         | "fill" -> let n = num t in put (s_fill (nat_of_int n) (mk_elem t))
+         | "range" | "ilist" -> put (s_of_elems (mk_string t))
+         | "copy" -> put (get (num t))
+         | "appendelem" -> put (s_append_elem (get id) (mk_elem t))
+         | "append" -> put (s_append (get id) (get (num t)))
+         | "plus" -> let a = num t in let b = num t in put (s_append (get a) (get b))
+         | "pluselem" -> let a = num t in put (s_append_elem (get a) (mk_elem t))
+         | "insert" -> let pos = num t in put (s_insert (get id) (nat_of_int pos) (mk_elem t))
+         | "insertrange" -> let pos = num t in let o = num t in put (s_insert_range (get id) (nat_of_int pos) (get o))
+         | "erase" -> put (s_erase_all (get id))
+         | "erasefrom" -> put (s_erase_from (get id) (nat_of_int (num t)))
+         | "eraserange" -> let a = num t in let b = num t in put (s_erase_range (get id) (nat_of_int a) (nat_of_int b))
+         | "setat" -> let i = num t in put (s_set (get id) (nat_of_int i) (mk_elem t))
+         | "swap" -> let o = num t in let a = get id and b = get o in Hashtbl.replace tstrings id b; Hashtbl.replace tstrings o a
+         | "dump" -> let s = get id in
+             out (Printf.sprintf "ZS %d %d" (List.length s) (if s = [] then 1 else 0));
+             List.iter (fun e -> out ("E " ^ pr_elem e)) s;
+             out ("TS " ^ hex (to_string s))
+         | _ -> out "ERR unknown string op")
     | "P" ->
         let id = num t in
         (match str t with
